@@ -1,5 +1,22 @@
 import SpecKitV.Lemmas.Bilinear
+import SpecKitV.Lemmas.FftNoise
 
 #print axioms bilinear_section
 #print axioms bilinear_dc
 #print axioms bilinear_nyquist
+#print axioms fftnoise_hermitian
+#print axioms fftnoise_dc_real
+#print axioms fftnoise_nyquist_real
+#print axioms fftnoise_magnitude_pos
+#print axioms fftnoise_magnitude_neg
+#print axioms fftnoise_dc_magnitude
+#print axioms fftnoise_nyquist_magnitude
+#print axioms fftnoise_zero_bins
+#print axioms hermitian_idft_real
+#print axioms fftnoise_series_real
+#print axioms bandMask_symm
+#print axioms bandMask_iff
+#print axioms fftfreqAbs_symm
+#print axioms fftfreqAbs_eq
+#print axioms sectionCorners_ratio
+#print axioms sectionCorners_step
